@@ -461,4 +461,179 @@ Proof.
   destruct zero; reflexivity.
 Qed.
 
+(* ---------------------------------------------------------------- the typing rules, abstractly *)
+(* what matters of a matched spec: the type character, "#", sign, ",", "0", the alignment, whether there is a precision *)
+Definition a_types (ty : option N) (alt sgn comma zero : bool) (align : option N) (prec : bool) : option tset :=
+  match (match ty with
+         | None => Some t_all
+         | Some ft =>
+           if ft =? 115 then Some {| t_str := true; t_int := false; t_float := false |}
+           else if FmtPyBrace.in_chars ft [98; 99; 100; 111; 120; 88] then Some {| t_str := false; t_int := true; t_float := false |}
+           else if FmtPyBrace.in_chars ft [101; 69; 102; 70; 103; 71; 37] then Some {| t_str := false; t_int := false; t_float := true |}
+           else if ft =? 110 then (if comma then None else Some t_num)
+           else None
+         end) with
+  | None => None
+  | Some tp1 =>
+    match (if alt || sgn || comma then (if t_empty (t_and tp1 t_num) then None else Some (t_and tp1 t_num)) else Some tp1) with
+    | None => None
+    | Some tp2 =>
+      match (match (match align with None => if zero then Some 61 else None | a => a end) with
+             | Some a => if a =? 61 then (if t_empty (t_and tp2 t_num) then None else Some (t_and tp2 t_num)) else Some tp2
+             | None => Some tp2
+             end) with
+      | None => None
+      | Some tp3 =>
+        if prec then
+          (if t_empty (t_and tp3 {| t_str := true; t_int := false; t_float := true |}) then None
+           else Some (t_and tp3 {| t_str := true; t_int := false; t_float := true |}))
+        else Some tp3
+      end
+    end
+  end.
+
+Ltac split_if := match goal with |- context [if ?b then _ else _] => destruct b end.
+
+Lemma spec_types_abs ftext tl tp m : m_format_spec U tl = Some m -> spec_types U M ftext tl = Ok tp ->
+  a_types (sp_type m) (sp_alt m) (FmtPyBrace.is_some (sp_sign m)) (sp_comma m) (sp_zero m) (sp_align m)
+          (FmtPyBrace.is_some (sp_prec m)) = Some tp.
+Proof.
+  intros Em H. unfold spec_types in H. rewrite Em in H. cbv zeta in H.
+  step_bind H E1. step_bind H E2. step_bind H E3. step_bind H E4.
+  unfold a_types.
+  match goal with |- match ?x with _ => _ end = _ => assert (A1 : x = Some a) end.
+  { revert E1. destruct (sp_type m) as [ft|]; [|intros E; injection E as <-; reflexivity].
+    repeat split_if; intros E; first [discriminate E|injection E as <-; reflexivity]. }
+  rewrite A1.
+  match goal with |- match ?x with _ => _ end = _ => assert (A2 : x = Some a0) end.
+  { revert E2. repeat split_if; intros E; first [discriminate E|injection E as <-; reflexivity]. }
+  rewrite A2.
+  match goal with |- match ?x with _ => _ end = _ => assert (A3 : x = Some a1) end.
+  { revert E3. destruct (sp_align m) as [al|]; [|destruct (sp_zero m)];
+      repeat split_if; intros E; first [discriminate E|injection E as <-; reflexivity]. }
+  rewrite A3.
+  destruct (sp_prec m) as [p|]; cbn [FmtPyBrace.is_some]; [|injection H as <-; reflexivity].
+  destruct (t_empty (t_and a1 {| t_str := true; t_int := false; t_float := true |})); [discriminate H|].
+  step_bind H E5. match type of H with (if ?b then _ else _) = _ => destruct b end; [discriminate H|]. injection H as <-. reflexivity.
+Qed.
+
+(* CPython's format(value, spec) in the same abstract terms *)
+Definition a_align (align : option N) (zero dar : bool) : option N :=
+  match align with None => if zero && dar then Some 61 else None | a => a end.
+
+Definition a_fmt (v : bval) (ty : option N) (alt sgn comma zero : bool) (align : option N) (prec : bool) : fres :=
+  match v with
+  | BStr _ =>
+    let tyf := match ty with Some c => Some c | None => Some 115 end in
+    if th_ok comma tyf then
+      if negb (match tyf with Some c => c =? 115 | None => false end) then FValueError
+      else if sgn || false || alt then FValueError
+      else if (match a_align align zero false with Some a => a =? 61 | None => false end) then FValueError
+      else FSuccess
+    else FValueError
+  | BInt z =>
+    let tyf := match ty with Some c => Some c | None => Some 100 end in
+    if th_ok comma tyf then
+      match tyf with
+      | Some c =>
+        if CPyFormat.in_chars c [98; 99; 100; 111; 120; 88; 110] then
+          if prec then FValueError
+          else if false then FValueError
+          else if c =? 99 then
+            if sgn || alt then FValueError
+            else if ((0 <=? z) && (z <? 1114112))%Z then FSuccess else FOverflowError
+          else FSuccess
+        else if CPyFormat.in_chars c [101; 69; 102; 70; 103; 71; 37] then FSuccess
+        else FValueError
+      | None => FValueError
+      end
+    else FValueError
+  | BFloat =>
+    let tyf := match ty with Some c => Some c | None => None end in
+    if th_ok comma tyf then
+      match tyf with
+      | None => FSuccess
+      | Some c => if CPyFormat.in_chars c [101; 69; 102; 70; 103; 71; 110; 37] then FSuccess else FValueError
+      end
+    else FValueError
+  end.
+
+Lemma format_value_abs v tl m : tl <> [] -> m_format_spec U tl = Some m -> forallb not_brace tl = true ->
+  ty_known (sp_type m) -> num_ok (sp_width m) -> num_ok (sp_prec m) ->
+  format_value dv v tl =
+    a_fmt v (sp_type m) (sp_alt m) (FmtPyBrace.is_some (sp_sign m)) (sp_comma m) (sp_zero m) (sp_align m)
+          (FmtPyBrace.is_some (sp_prec m)).
+Proof.
+  intros Hne Em Hnb Hty Hw Hp. unfold format_value. destruct tl as [|t0 tl']; [congruence|].
+  unfold a_fmt. destruct v as [z| |sv].
+  - pose proof (parse_spec_sim _ m (Some 100) true Em Hnb Hty Hw Hp) as Hsim. cbv zeta in Hsim |- *.
+    destruct (th_ok (sp_comma m) match sp_type m with Some c => Some c | None => Some 100 end).
+    + destruct Hsim as [f [-> [H1 [H2 [H3 [H4 [H5 H6]]]]]]]. rewrite H6, H5, H2, H1, H3. reflexivity.
+    + rewrite Hsim. reflexivity.
+  - pose proof (parse_spec_sim _ m None true Em Hnb Hty Hw Hp) as Hsim. cbv zeta in Hsim |- *.
+    destruct (th_ok (sp_comma m) match sp_type m with Some c => Some c | None => None end).
+    + destruct Hsim as [f [-> [H1 [H2 [H3 [H4 [H5 H6]]]]]]]. rewrite H6. reflexivity.
+    + rewrite Hsim. reflexivity.
+  - pose proof (parse_spec_sim _ m (Some 115) false Em Hnb Hty Hw Hp) as Hsim. cbv zeta in Hsim |- *.
+    destruct (th_ok (sp_comma m) match sp_type m with Some c => Some c | None => Some 115 end).
+    + destruct Hsim as [f [-> [H1 [H2 [H3 [H4 [H5 H6]]]]]]]. rewrite H6, H1, H2, H3, H4. unfold a_align. destruct (sp_align m); reflexivity.
+    + rewrite Hsim. reflexivity.
+Qed.
+
 End SpecSound.
+
+(* ---------------------------------------------------------------- the finite check *)
+Definition d24_bad (ty : option N) (alt sgn comma : bool) : bool :=
+  match ty with
+  | Some c => (comma && FmtPyBrace.in_chars c [98; 99; 111; 120; 88]) || ((sgn || alt) && (c =? 99))
+  | None => false
+  end.
+
+Definition val_in (v : bval) (tp : tset) : bool :=
+  match v with
+  | BStr _ => t_str tp
+  | BInt z => t_int tp && ((0 <=? z) && (z <? 1114112))%Z
+  | BFloat => t_float tp
+  end.
+
+(* every combination of type character (or none), "#", sign, ",", "0", alignment (none, "=", other), precision, value kind *)
+Lemma abs_sound ty alt sgn comma zero align prec tp v :
+  ty_known ty -> a_types ty alt sgn comma zero align prec = Some tp -> d24_bad ty alt sgn comma = false ->
+  val_in v tp = true -> a_fmt v ty alt sgn comma zero align prec = FSuccess.
+Proof.
+  intros Hty.
+  assert (Hal : align = None \/ align = Some 61 \/ exists a, align = Some a /\ (a =? 61) = false).
+  { destruct align as [a|]; [|auto]. destruct (N.eqb_spec a 61) as [->|Hne]; [auto|]. right. right. exists a. split; [reflexivity|].
+    apply N.eqb_neq. exact Hne. }
+  assert (Hv : exists r, match v with BInt z => ((0 <=? z) && (z <? 1114112))%Z = r | _ => r = true end) by (destruct v; eauto).
+  destruct Hv as [r Hr].
+  destruct ty as [c|]; [cbn [ty_known known_types In] in Hty|];
+    [repeat (destruct Hty as [<-|Hty]; [|]); [..|destruct Hty]|];
+    (destruct Hal as [->|[->|[a [-> Ha]]]]);
+    destruct v as [z| |sv]; unfold a_types, a_fmt, d24_bad, val_in, a_align, th_ok; try rewrite Hr; try rewrite Ha;
+    destruct alt, sgn, comma, zero, prec; cbn;
+    intros Ht; first [discriminate Ht|injection Ht as <-]; cbn; intros Hd Hvv;
+    first [discriminate Hd|discriminate Hvv|reflexivity|(rewrite Hvv; reflexivity)].
+Qed.
+
+(* the guard that excludes D24: no "," with b c o x X, no sign or "#" with c *)
+Definition spec_guard (U : ucd) (tl : list N) : bool :=
+  match m_format_spec U tl with
+  | Some m => negb (d24_bad (sp_type m) (sp_alt m) (FmtPyBrace.is_some (sp_sign m)) (sp_comma m))
+  | None => true
+  end.
+
+(* a value of a type the parser reports for a format spec is formatted by CPython's format() with that spec *)
+Theorem spec_sound U M : ucd_spec U M -> forall ftext tl tp v,
+  spec_types U M ftext tl = Ok tp -> forallb not_brace tl = true -> spec_guard U tl = true ->
+  val_in v tp = true -> format_value (u_decval U) v tl = FSuccess.
+Proof.
+  intros Hs ftext tl tp v Ht Hnb Hg Hv.
+  destruct tl as [|t0 tl'] eqn:Etl; [reflexivity|]. rewrite <- Etl in *.
+  destruct (m_format_spec U tl) as [m|] eqn:Em.
+  2:{ unfold spec_types in Ht. rewrite Em in Ht. discriminate Ht. }
+  destruct (spec_types_facts U M Hs ftext tl tp m Em Ht) as [Hty [Hw Hp]].
+  rewrite (format_value_abs U M Hs v tl m ltac:(rewrite Etl; discriminate) Em Hnb Hty Hw Hp).
+  apply (abs_sound _ _ _ _ _ _ _ tp v Hty (spec_types_abs U M ftext tl tp m Em Ht)); [|exact Hv].
+  unfold spec_guard in Hg. rewrite Em in Hg. apply negb_true_iff. exact Hg.
+Qed.
